@@ -49,10 +49,13 @@ type C09Scenario struct {
 	// RedirDialMS: connecting to the redirect target takes this long (a slow or
 	// distant web server): later peers arrive while an earlier one is being handed over
 	RedirDialMS int `json:"redir_dial_ms,omitempty"`
+	// NoAdmin: the server's configuration names no AdminUID
+	NoAdmin bool `json:"no_admin,omitempty"`
 }
 
 // c09Stagger spreads the peers' arrivals over a slow hand-over to the target.
 func c09Stagger(g *Gen, sc *C09Scenario, prob float64) {
+	sc.NoAdmin = g.Bool(0.4)
 	if !g.Bool(prob) {
 		return
 	}
@@ -236,7 +239,16 @@ func c09Stream(w *SrvWorld, p C09Peer, extraClients *[]c09Genuine) (s []byte, fi
 		*extraClients = append(*extraClients, c09Genuine{h, false})
 		s, first = append([]byte(nil), h...), len(h)
 	case "cloak-unauth-uid":
-		s = hello(func(c *ClientParams) { c.UID = randBytes(rng, 16) })
+		// a UID that is on no list: random, or one of the values a blank or
+		// half-filled field would hold
+		uid := randBytes(rng, 16)
+		switch p.Arg % 4 {
+		case 0:
+			uid = make([]byte, 16)
+		case 1:
+			uid = bytes.Repeat([]byte{0xff}, 16)
+		}
+		s = hello(func(c *ClientParams) { c.UID = uid })
 		first = len(s)
 	case "cloak-bad-method":
 		s = hello(func(c *ClientParams) { c.Method = "nosuchproxy" })
@@ -288,7 +300,7 @@ type c09Conn struct {
 func runC09(c *Ctx, scAny any) {
 	sc := scAny.(*C09Scenario)
 	c.Net.DefaultPartial = sc.Partial
-	w := NewSrvWorld(c, SrvParams{NBypass: 1})
+	w := NewSrvWorld(c, SrvParams{NBypass: 1, NoAdmin: sc.NoAdmin})
 	defer w.Cleanup()
 	if sc.RedirDialMS > 0 {
 		c.Net.DialDelay[redirAddr] = time.Duration(sc.RedirDialMS) * time.Millisecond
